@@ -63,13 +63,13 @@ class C17(Prop):
             'Peano number; left-recursive without answers; infinitely many answers at growing depth: nat/1, cnt/2; goals '
             'through findall/once/negation whose inner search is too deep; two-goal conjunctions; a registered Python predicate that yields True; a predicate combined from two scripts whose first clause ends in a cut; a predicate with asserted facts beside its compiled clauses; two lists of n elements unified with each other through same(X,X) / A = B) with generated sizes, '
             'plus random generic programs, x recursion limits from 25 to 465 frames above the caller x projection '
-            'functions that return the answer, raise ValueError / a RuntimeError subclass at answer k, run a nested evaluate_bounded on the same engine with another limit, or recurse deeply '
+            'functions that return the answer, raise ValueError / a RuntimeError subclass at answer k, run a nested evaluate_bounded on the same engine with another limit, use the recursive get_value of the engine (which may itself overflow at a deep answer), or recurse deeply '
             'themselves x the interpreter\'s own limit before the call (generous, or LOWER than the requested limit). Oracles: no RecursionError (or other exception than the projection\'s own non-RuntimeError) '
             'escapes; if a plain loop with the identical frame shape completes under the same limit, the result equals '
             'that list and R\'s answers; otherwise it agrees with R\'s answer prefix; the result under limit L and the '
             'result under L + 600 are prefix-comparable (both are prefixes of the one true sequence); afterwards '
             'sys.getrecursionlimit() is what it was and every engine variable ever created is unbound - on the normal, '
-            'overflow and projection-raises paths. Non-trivial = the limit struck during the search or the projection '
+            'overflow and projection-raises paths; when R finished with at most 12 answers, the query is then run again on the same engine and argument objects under a generous limit and must give the reference answers. Non-trivial = the limit struck during the search or the projection '
             'raised; distinct = SHA-1 of program + query + limit + projection.')
     assumptions = ['CPython 3.12 of /venv: recursion depth counts Python frames per thread deterministically', 'one thread; the caller\'s own stack is shallower than the limit (limits are chosen relative to the measured depth)',
                    'reference interpreter R for the true answer sequence (prefix when R itself is bounded)']
@@ -154,10 +154,19 @@ class C17(Prop):
             preds, clauses = gen.gen_program(src, self.CFG)
             q = gen.gen_query(src, preds, self.CFG, clauses)
             text = gen.program_text(clauses)
-        proj = src.pick(['value', 'value', 'value', 'raise-value', 'raise-runtime', 'deep-recursion', 'value', 'nested'])
+        proj = src.pick(['value', 'value', 'value', 'raise-value', 'raise-runtime', 'deep-recursion', 'engine-value', 'nested'])
         if (dyn or pyfunc or extra_scripts) and src.n(2):
             proj = 'raise-value'
         delta = 25 + src.n(6) * src.n(6) * 16 + src.n(40)
+        if proj == 'engine-value' and src.n(3):
+            # an answer built by a chain of n bindings (outer first, inner later), limits around the depth that the search
+            # and the dereferencing of the answer need
+            n = src.pick([10, 30, 60, 100])
+            text, clauses, dyn, pyfunc, extra_scripts = FAMILY, None, [], None, []
+            items = mklist([('a', 'e%d' % (i % 7)) for i in range(n)])
+            q = src.pick([('f', 'len', (items, X)), ('f', 'app', (items, mklist([('a', 'x')]), X)), ('f', 'app', (X, Y, items))])
+            delta = max(25, 2 * n + src.n(4 * n + 40))
+            k = 1
         if k == 103 and src.n(4):
             delta = max(25, 2 * n + src.n(n + 40))        # around the depth that doing / undoing the unification needs
         return {'text': text, 'clauses': clauses, 'query': q, 'limit_delta': delta,
@@ -218,7 +227,12 @@ class C17(Prop):
 
         def proj(x):
             cnt['i'] += 1
-            v = value()
+            if proj_kind == 'engine-value':
+                # the documented projection: the engine's own (recursive) get_value of the query arguments; it may
+                # itself run out of stack at a deep answer
+                v = impl.flat([impl.get_value(a) for a in eargs])
+            else:
+                v = value()
             if proj_kind == 'raise-value' and cnt['i'] > k:
                 raise ProjValueError('projection')
             if proj_kind == 'raise-runtime' and cnt['i'] > k:
@@ -274,6 +288,29 @@ class C17(Prop):
         del g
         gc.collect()
         out['expected_limit'] = old
+        if mode == 'bounded' and getattr(self, '_rerun', 0):
+            # the same engine, the same argument objects, a generous limit: the answers must be the reference's again
+            want = self._rerun
+            res = []
+            sys.setrecursionlimit(base + 6000)
+            try:
+                g2 = yp.query(name, eargs)
+                try:
+                    for _ in g2:
+                        res.append(self._ans(name, eargs))
+                        if len(res) >= want:
+                            break
+                finally:
+                    g2.close()
+                out['rerun'] = res
+            except RecursionError:
+                out['rerun'] = None
+            except (impl.ImplBudget, impl.ImplWork):
+                out['rerun'] = None
+            except Exception as e:      # noqa
+                out['rerun'] = 'exception %s: %s' % (type(e).__name__, str(e)[:200])
+            finally:
+                sys.setrecursionlimit(old)
         return out
 
     def _ans(self, name, eargs):
@@ -337,7 +374,11 @@ class C17(Prop):
             st, ref, it = C.run_ref(prog, q, max_steps=6000, max_depth=400, limit=40, setup=setup)
             ref_terms = ref
             ref = [impl.flat_ref(x[2] if x[0] == 'f' else ()) for x in ref]
-        a = self.run_once(code, q, delta, kind, k, case['proj_depth'], 'bounded', dyn, interp, pyfunc, extra_scripts)
+        self._rerun = (len(ref) + 1) if (st == 'done' and len(ref) <= 12) else 0
+        try:
+            a = self.run_once(code, q, delta, kind, k, case['proj_depth'], 'bounded', dyn, interp, pyfunc, extra_scripts)
+        finally:
+            self._rerun = 0
         detail['reference_answers'] = C.answers_view(ref_terms[:6]) + (['...'] if len(ref) > 6 else [])
         detail['reference_status'] = st
         if a['escaped'] == 'work-budget':
@@ -356,6 +397,12 @@ class C17(Prop):
             return FAIL('recursion-limit-not-restored', dict(detail, before=a['expected_limit'], after=a['limit_after']))
         if a['bound_after']:
             return FAIL('variables-bound-after-the-call', dict(detail, bound=a['bound_after']))
+        if a.get('rerun') is not None:
+            if isinstance(a['rerun'], str):
+                return FAIL('rerun-after-the-call-raises', dict(detail, error=a['rerun']))
+            got = [canon(x) for x in a['rerun']]
+            if got != ref_terms:
+                return FAIL('rerun-after-the-call:answers-differ', dict(detail, rerun=C.answers_view(got[:6])))
         classes = ['projection:' + kind]
         struck = False
         if a['result'] is not None:
@@ -366,7 +413,7 @@ class C17(Prop):
                 return FAIL('result-is-not-a-prefix-of-the-answers', dict(detail, result=[str(x)[:200] for x in res[:6]]))
             if st == 'done' and len(res) > len(ref):
                 return FAIL('result-has-extra-answers', dict(detail, result=[str(x)[:200] for x in res[:6]]))
-            if kind in ('value', 'nested'):
+            if kind in ('value', 'nested', 'engine-value'):
                 p = self.run_once(code, q, delta, kind, k, case['proj_depth'], 'plain', dyn, 'high', pyfunc, extra_scripts)
                 if p['completed'] is True:
                     if res != p['result']:
